@@ -157,7 +157,7 @@ func (e *discEnv) feed(in discIn) {
 	}()
 	select {
 	case <-done:
-	case <-time.After(20 * time.Second):
+	case <-time.After(10 * time.Minute):
 		outcome = "wedge"
 	}
 	el := time.Since(start)
